@@ -229,6 +229,25 @@ class ObligationResult(object):
         self.reason = reason
 
 
+def _mentions(expr, variables):
+    """does a z3 expression contain one of the given constants (free)?"""
+    ids = {v.get_id() for v in variables if isinstance(v, z3.ExprRef)}
+    seen = set()
+    stack = [expr]
+    while stack:
+        x = stack.pop()
+        if x.get_id() in seen:
+            continue
+        seen.add(x.get_id())
+        if x.get_id() in ids:
+            return True
+        if z3.is_quantifier(x):
+            stack.append(x.body())
+        else:
+            stack.extend(x.children())
+    return False
+
+
 class Engine(object):
     def __init__(self, timeout_ms=10000, keep_smt2=False):
         self.sources = SourceIndex()
@@ -245,6 +264,9 @@ class Engine(object):
         self.solver_calls = 0
         self.covers = {}
         self.pure = 0
+        self.pure_guards = []
+        self.pure_vars = []
+        self.bound_ids = set()
         self.cuts = {}
         self.loop_handlers = {}
         self.max_paths = 200000
@@ -290,6 +312,9 @@ class Engine(object):
         return r, m, reason
 
     def assume(self, c):
+        if self.pure and self.pure_vars and isinstance(c, z3.ExprRef) and _mentions(c, self.pure_vars):
+            # only closed (definitional) axioms may be added while a bound variable is in scope
+            raise Unsupported("assumption mentioning a bound variable inside a quantified (pure) context")
         c = self.zbool(c)
         c = z3.simplify(c)
         if z3.is_true(c):
@@ -665,10 +690,16 @@ class Engine(object):
         return x in container
 
     def slist_contains(self, x, xs):
+        if self.pure:
+            # inside a quantified predicate the answer must be a term of the bound variable
+            q = z3.Int(S.fresh_name("q_in"))
+            self.bound_ids.add(q.get_id())
+            return z3.Exists([q], z3.And(0 <= q, q < xs.length, self.zbool_of(self.sym_eq(x, xs.get(q)))))
         w = z3.Int(S.fresh_name("w_in"))
         b = z3.Bool(S.fresh_name("in"))
         eqw = self.zbool_of(self.sym_eq(x, xs.get(w)))
         i = z3.Int(S.fresh_name("i_in"))
+        self.bound_ids.add(i.get_id())
         eqi = self.zbool_of(self.sym_eq(x, xs.get(i)))
         self.assume(z3.Implies(b, z3.And(0 <= w, w < xs.length, eqw)))
         self.assume(z3.ForAll([i], z3.Implies(z3.And(0 <= i, i < xs.length, eqi), b)))
@@ -1267,7 +1298,20 @@ class Engine(object):
     def ex_BoolOp(self, n, env):
         is_and = isinstance(n.op, ast.And)
         if self.pure:
-            vals = [self.eval(v, env) for v in n.values]
+            # operands are evaluated in order; operand k is evaluated under the guard that the earlier
+            # ones were truthy (and) / falsy (or), which licenses guarded partial operations
+            vals = []
+            pushed = 0
+            try:
+                for sub in n.values:
+                    v = self.eval(sub, env)
+                    vals.append(v)
+                    g = self.zbool_of(v) if isinstance(v, Sym) else z3.BoolVal(bool(v))
+                    self.pure_guards.append(g if is_and else z3.Not(g))
+                    pushed += 1
+            finally:
+                for _ in range(pushed):
+                    self.pure_guards.pop()
             if not any(isinstance(v, Sym) for v in vals):
                 r = vals[0]
                 for v in vals[1:]:
@@ -1528,6 +1572,11 @@ class Engine(object):
             try:
                 if k in c:
                     val = c[k]
+                    if isinstance(val, OptField) and self.pure:
+                        pz = val.present if not isinstance(val.present, bool) else z3.BoolVal(val.present)
+                        if any(g.eq(pz) for g in self.pure_guards) or z3.is_true(z3.simplify(pz)):
+                            return val.value
+                        raise Unsupported("unguarded access to an optional key in a quantified context")
                     if isinstance(val, OptField):
                         if self.branch(val.present if not isinstance(val.present, bool) else z3.BoolVal(val.present)):
                             c[k] = val.value
